@@ -92,7 +92,7 @@ type pcase = { p_enc : bool; p_grp : bool; p_exp : bool; p_win : rx; p_pre : exc
 let parse_msg ~key ~enc s : msg =
   match String.split_on_char ':' s with
   | [ctr; exid; ir; op; rel; ack] ->
-      { m_key = key; m_enc = enc; m_group = false; m_ctr = n_of_string ctr; m_exid = n_of_string exid; m_init = (ir = "i");
+      { m_key = key; m_enc = enc; m_group = false; m_ctl = false; m_ctr = n_of_string ctr; m_exid = n_of_string exid; m_init = (ir = "i");
         m_op = op_of_char op.[0]; m_rel = (rel = "1"); m_ack = (if ack = "-" then None else Some (n_of_string ack)) }
   | _ -> failwith ("bad msg " ^ s)
 
@@ -165,7 +165,7 @@ let rx_label (s : sys) arg : msg =
         | "-" -> None
         | "@" -> Some base
         | _ -> Some (N.add base (ni 1000)) in
-      { m_key = key; m_enc = (int_of_n key < 10); m_group = (int_of_n key = 9); m_ctr = n_of_string ctr; m_exid = exid; m_init = init;
+      { m_key = key; m_enc = (int_of_n key < 10); m_group = (int_of_n key = 9); m_ctl = false; m_ctr = n_of_string ctr; m_exid = exid; m_init = init;
         m_op = op_of_char op.[0]; m_rel = (rel = "1"); m_ack = ack }
   | _ -> failwith ("bad rx op " ^ arg)
 
@@ -329,10 +329,10 @@ let parse_state (str : string) : sys * (n * nat) option list =
         | _ -> None) (split_on ',' (String.sub h 2 (String.length h - 2))) in
       let live = List.filter_map (fun x -> x) hsl in
       let rxs = if rxv = "E" then RxEmpty
-        else if rxv = "T" then RxTaken ({ m_key = N0; m_enc = true; m_group = false; m_ctr = N0; m_exid = N0; m_init = true;
+        else if rxv = "T" then RxTaken ({ m_key = N0; m_enc = true; m_group = false; m_ctl = false; m_ctr = N0; m_exid = N0; m_init = true;
                                           m_op = OpOrdinary; m_rel = false; m_ack = None }, N0, O)
         else match String.split_on_char ':' (String.sub rxv 1 (String.length rxv - 1)) with
-          | [k; e; ir] -> RxHolding { m_key = n_of_string k; m_enc = true; m_group = (k = "9"); m_ctr = N0; m_exid = n_of_string e;
+          | [k; e; ir] -> RxHolding { m_key = n_of_string k; m_enc = true; m_group = (k = "9"); m_ctl = false; m_ctr = N0; m_exid = n_of_string e;
                                       m_init = (ir = "i"); m_op = OpOrdinary; m_rel = false; m_ack = None }
           | _ -> failwith "bad rx" in
       ({ sessions; rx0 = rxs; handles = live; now = N0; next_sid = N0 }, hsl)
@@ -364,7 +364,7 @@ let spec_s ops impl =
             (match String.split_on_char ':' arg with
              | [key; ctr; exid; ir; o; rel; _] ->
                  (* initiator aliases: the implementation prints aliases in its tables, so the alias is the id *)
-                 LRx { m_key = n_of_string key; m_enc = (int_of_string key < 10); m_group = (key = "9"); m_ctr = n_of_string ctr;
+                 LRx { m_key = n_of_string key; m_enc = (int_of_string key < 10); m_group = (key = "9"); m_ctl = false; m_ctr = n_of_string ctr;
                        m_exid = n_of_string exid; m_init = (ir = "i"); m_op = op_of_char o.[0]; m_rel = (rel = "1");
                        m_ack = None }
              | _ -> quiet)
@@ -378,6 +378,7 @@ let spec_s ops impl =
         | 'C' -> if String.length base >= 6 && String.sub base 0 6 = "closed" then LCloseDropped else quiet
         | _ -> quiet in
       if not (sessions_lifecycle_b label pres.sessions post.sessions) then add ("lifecycle-" ^ String.make 1 kind);
+      if not (group_sessions_ok post.sessions) then add "group-session-left-behind-or-with-mrp";
       (match kind with
        | 'v' ->
            if String.length base >= 3 && String.sub base 0 3 = "got" then begin
@@ -416,7 +417,10 @@ let spec_s ops impl =
             | _ -> ())
        | 'r' ->
            (match label with
-            | LRx m -> if base <> "busy" && not (rx_ok pres m (base = "kept") post) then add "kept-without-owner"
+            | LRx m ->
+                if base <> "busy" && not (rx_ok pres m (base = "kept") post) then add "kept-without-owner";
+                let dup = (match String.index_opt res '+' with Some _ -> true | None -> false) in
+                if base = "gone" && not (peer_close_ok pres m dup post) then add "peer-close-ignored"
             | _ -> ())
        | _ -> ());
       pre := (post, posth)) opl toks;
@@ -502,7 +506,7 @@ let predict_e fields =
   let answered_ex : (int * int) list ref = ref [] in    (* (key, exid) the device sent something on *)
   let closed_keys : int list ref = ref [] in
   let mk_msg key exid init rel op ack =
-    { m_key = ni key; m_enc = true; m_group = (key = 9); m_ctr = ni (next_ctr key); m_exid = ni exid; m_init = init;
+    { m_key = ni key; m_enc = true; m_group = (key = 9); m_ctl = false; m_ctr = ni (next_ctr key); m_exid = ni exid; m_init = init;
       m_op = op_of_char op; m_rel = rel; m_ack = ack } in
   let exch_of (sid, idx) = match find_sid !st.sessions sid with
     | Some se -> (match nth_error se.s_exchs idx with Some (Some e) -> Some (se, e) | _ -> None)
